@@ -213,3 +213,26 @@ void h_FuncSUBSTR_safe(void) {
     VPOST(res.Typ == TempString && res.Contents.str.len <= args[0].Contents.str.len, "C03: SUBSTR never yields more than the source holds, whatever the arguments");
     VREACH("end");
 }
+
+/* STRSTR(haystack, needle): position of the first occurrence (0-based), -1 if there is none.  Bounded: haystack <= 6, needle <= 3. */
+void h_FuncSTRSTR(void) {
+    size_t hl, nl, p, i; long long r; int m;
+    mk_args(TempString);
+    mk_str(&args[0].Contents.str, 6);
+    args[1].Typ = TempString; mk_str(&args[1].Contents.str, 3);
+    hl = args[0].Contents.str.len; nl = args[1].Contents.str.len;
+    FuncSTRSTR(&res, args, 2);
+    VPOST(res.Typ == TempInt && res.Contents.Int >= -1 && (res.Contents.Int == -1 || (unsigned long long)res.Contents.Int + nl <= hl), "C08: STRSTR yields -1 or a position at which the pattern fits");
+    r = res.Contents.Int;
+    VND(p, size_t); VASSUME(p <= 6 && p + nl <= hl);             /* witness position */
+    m = 1; for (i = 0; i < 3; i++) if (i < nl && args[0].Contents.str.p_str[p + i] != args[1].Contents.str.p_str[i]) m = 0;
+    if (r >= 0) {
+        int mr = 1; for (i = 0; i < 3; i++) if (i < nl && args[0].Contents.str.p_str[r + (long long)i] != args[1].Contents.str.p_str[i]) mr = 0;
+        VPOST(mr, "C08: the pattern occurs at the position STRSTR reports");
+        VPOST(!((long long)p < r) || !m, "C08: ... and at no earlier position (first occurrence)");
+        VREACH("found");
+    } else {
+        VPOST(!m, "C08: STRSTR reports -1 only if the pattern occurs nowhere");
+        VREACH("none");
+    }
+}
